@@ -348,13 +348,16 @@ def step (s : St) : Op → St × Res
     | some (p, owner) =>
       match s.heap[p]?, s.classes[c]? with
       | some q, some k =>
-        -- `if owning_class != mcs`: copy.copy, `type.__setattr__`
-        let (s1, p1) := if owner = c then (s, p) else
-          ({ s with heap := s.heap ++ [q],
-                    classes := s.classes.set c { k with dict := aset k.dict n s.heap.length } }, s.heap.length)
-        -- `mcs.__dict__[name].__set__(None, value)`: read-only → TypeError; otherwise `default = val`
-        if q.readonly then (s1, .typeError)
-        else ({ s1 with heap := s1.heap.set p1 { q with default := v } }, .ok)
+        -- read-only: `__set__(None, value)` raises TypeError — on the class's own Parameter, or on the
+        -- copy-on-write copy just installed, which is then deleted again (nothing was stored): either
+        -- way nothing changes
+        if q.readonly then (s, .typeError)
+        else
+          -- `if owning_class != mcs`: copy.copy, `type.__setattr__`; then `default = val`
+          let (s1, p1) := if owner = c then (s, p) else
+            ({ s with heap := s.heap ++ [q],
+                      classes := s.classes.set c { k with dict := aset k.dict n s.heap.length } }, s.heap.length)
+          ({ s1 with heap := s1.heap.set p1 { q with default := v } }, .ok)
       | _, _ => (s, .stuck)
   | .flag i n b =>
     match getParamCore s i n with
